@@ -7,6 +7,7 @@ import (
 	"math/rand"
 	"net/smtp"
 	"strings"
+	"sync"
 	"text/template"
 	"time"
 
@@ -26,6 +27,11 @@ func NewSMTPMailer(server string, auth smtp.Auth) *SMTPMailer {
 	random := rand.New(rand.NewSource(time.Now().UnixNano()))
 	return &SMTPMailer{server, auth, random}
 }
+
+// randMu serialises the use of an SMTPMailer's random source: a *rand.Rand is
+// not safe for concurrent use, and Send is called from several goroutines at
+// once (concurrent requests, and the goroutines the modules start for mail).
+var randMu sync.Mutex
 
 // SMTPMailer uses smtp to actually send e-mails
 type SMTPMailer struct {
@@ -69,6 +75,8 @@ func (s SMTPMailer) boundary() string {
 	const alphabet = "abcdefghijklmnopqrstuvwxyz0123456789"
 	buf := &bytes.Buffer{}
 
+	randMu.Lock()
+	defer randMu.Unlock()
 	for i := 0; i < 23; i++ {
 		buf.WriteByte(alphabet[s.rand.Int()%len(alphabet)])
 	}
